@@ -48,7 +48,7 @@ def run(ctx):
             r = e2e.run_real(src, fin, strict)
             if r["exc"]:
                 nexc += 1
-                if r["exc"][0] != "ParseError":
+                if r["exc"][0] not in ("ParseError", "Timeout"):      # the 30 s limit is a harness safety net; termination is property C06
                     failing.append({"what": f"raise: Analysis.run raised {r['exc']}", "sig": ["C01", "raise", r["exc"][0], r["exc"][1]],
                                     "input": {"src": src, "opts": {"fin": fin, "strict": strict}}, "expected": "a result", "observed": r["exc"]})
                 continue
@@ -88,7 +88,7 @@ def run(ctx):
         for fin, strict in MODES[:2] if i % 2 else MODES[2:]:
             r = e2e.run_real(src, fin, strict)
             if r["exc"]:
-                if r["exc"][0] != "ParseError":
+                if r["exc"][0] not in ("ParseError", "Timeout"):      # the 30 s limit is a harness safety net; termination is property C06
                     failing.append({"what": f"raise: Analysis.run raised {r['exc']}", "sig": ["C01", "raise", r["exc"][0], r["exc"][1]],
                                     "input": {"src": src, "opts": {"fin": fin, "strict": strict}}, "expected": "a result", "observed": r["exc"]})
                 continue
